@@ -97,7 +97,7 @@ class Table:
         if not hasattr(tb, "__b__") or not hasattr(tb, "__c__"):
             # no written literals on the closure: read the precision off the factor it computes
             try:
-                return max(half_rel(float(tb(1.0)) - float(tb(0.0))), F(1, 10**5))  # (a quotient b/c hides how b was written)
+                return max(half_rel(float(tb(1.0)) - float(tb(0.0))), F(1, 1000))  # (a quotient b/c hides how b was written: only gross disagreements are judged)
             except Exception:
                 return F(1, 10**9)
         return half_rel(tb.__b__) + half_rel(tb.__c__)
